@@ -1,10 +1,1494 @@
-// Package c12: harness for property C12 (stub until built).
+// Package c12: lockup accounts never release locked funds early.
+//
+// The harness creates real x/accounts lockup accounts (non-voting-delegatable and
+// self-delegatable continuous locking accounts) in the running application, drives them with
+// Execute by the owner and by strangers, drives the self-delegation proxy as root owner,
+// interleaves third-party deposits and blocks whose times straddle start, end and every
+// unbonding completion, and emits every step as a Coq term: the projection of the
+// implementation's state before the step, the operation with the oracle values read from the
+// application (staking / share-class / distribution results), the result class and the
+// projection after the step.  coq/Stake/C12Check.v evaluates the model on each of them.
 package c12
 
-import "fmt"
+import (
+	"fmt"
+	"math/big"
+	"sort"
+	"strings"
+	"time"
 
-// Run generates n cases from seed, runs them on the real application and writes
-// cases_*.v and stats.json into outDir.
+	"cosmossdk.io/collections"
+	sdkmath "cosmossdk.io/math"
+	bankkeeper "cosmossdk.io/x/bank/keeper"
+	banktypes "cosmossdk.io/x/bank/types"
+	stakingkeeper "cosmossdk.io/x/staking/keeper"
+	stakingtypes "cosmossdk.io/x/staking/types"
+	abci "github.com/cometbft/cometbft/abci/types"
+	cmtproto "github.com/cometbft/cometbft/api/cometbft/types/v1"
+	codectypes "github.com/cosmos/cosmos-sdk/codec/types"
+	"github.com/cosmos/cosmos-sdk/crypto/keys/ed25519"
+	sdk "github.com/cosmos/cosmos-sdk/types"
+	authtypes "github.com/cosmos/cosmos-sdk/x/auth/types"
+
+	nvl "github.com/sunriselayer/sunrise/x/accounts/non_voting_delegatable_lockup"
+	nvlt "github.com/sunriselayer/sunrise/x/accounts/non_voting_delegatable_lockup/v1"
+	sdl "github.com/sunriselayer/sunrise/x/accounts/self_delegatable_lockup"
+	sdlt "github.com/sunriselayer/sunrise/x/accounts/self_delegatable_lockup/v1"
+	proxyt "github.com/sunriselayer/sunrise/x/accounts/self_delegation_proxy/v1"
+	sctypes "github.com/sunriselayer/sunrise/x/shareclass/types"
+
+	"verifharness/apph"
+	"verifharness/emit"
+)
+
+// denominations, numbered in string order (the model relies on that order for sdk.Coins)
+var denoms = []string{"uatom", "urise", "uusdc", "uvrise"}
+
+const (
+	dATOM = 1
+	dFEE  = 2
+	dUSDC = 3
+	dBOND = 4
+)
+
+func denomID(s string) int {
+	for i, d := range denoms {
+		if d == s {
+			return i + 1
+		}
+	}
+	return 0
+}
+
+type bal4 [4]*big.Int // indexed by denom id - 1
+
+func zero4() bal4 { return bal4{big.NewInt(0), big.NewInt(0), big.NewInt(0), big.NewInt(0)} }
+func (b bal4) add(o bal4) bal4 {
+	var r bal4
+	for i := range r {
+		r[i] = new(big.Int).Add(b[i], o[i])
+	}
+	return r
+}
+func (b bal4) sub(o bal4) bal4 {
+	var r bal4
+	for i := range r {
+		r[i] = new(big.Int).Sub(b[i], o[i])
+	}
+	return r
+}
+func (b bal4) neg() bal4 { return zero4().sub(b) }
+func (b bal4) coq() string {
+	return fmt.Sprintf("{| b_fee := %s; b_bond := %s; b_oth := [(1, %s); (3, %s)] |}",
+		emit.Z(b[dFEE-1]), emit.Z(b[dBOND-1]), emit.Z(b[dATOM-1]), emit.Z(b[dUSDC-1]))
+}
+func (b bal4) strs() []string {
+	return []string{b[0].String(), b[1].String(), b[2].String(), b[3].String()}
+}
+
+type entryObs struct {
+	End    int64 // ns
+	Amt    *big.Int
+	IsFee  bool
+	Height int64
+}
+type unb struct {
+	T   int64
+	Amt *big.Int
+}
+
+// worldObs is the projection of the application state the model talks about.
+type worldObs struct {
+	SD         bool
+	Owner      int
+	Start, End int64
+	Orig       [][2]*big.Int // denom id, amount (ascending)
+	Now        int64
+	Height     int64
+	DL, DF     *big.Int
+	Ent        []struct {
+		Val int
+		L   []entryObs
+	}
+	AB            bal4
+	HasProxy      bool
+	PB            bal4
+	StkDel        *big.Int
+	StkUnb        []unb
+	ScDel         *big.Int
+	ScUnb         []unb
+	Out, Rew, Dep bal4
+	// observed schedule (QueryLockupAccountInfo.LockedCoins); nil = the query panicked
+	Locked [][2]*big.Int
+}
+
+func pairList(l [][2]*big.Int) string {
+	xs := make([]string, len(l))
+	for i, p := range l {
+		xs[i] = emit.Tuple(emit.Z(p[0]), emit.Z(p[1]))
+	}
+	return emit.List(xs)
+}
+func unbList(l []unb) string {
+	xs := make([]string, len(l))
+	for i, u := range l {
+		xs[i] = emit.Tuple(emit.ZI(u.T), emit.Z(u.Amt))
+	}
+	return emit.List(xs)
+}
+
+func (w *worldObs) coq() string {
+	var ents []string
+	for _, kv := range w.Ent {
+		var es []string
+		for _, e := range kv.L {
+			es = append(es, fmt.Sprintf("{| e_end := %s; e_amt := %s; e_h := %s |}",
+				emit.ZI(e.End), emit.Z(e.Amt), emit.ZI(e.Height)))
+		}
+		ents = append(ents, emit.Tuple(emit.ZI(int64(kv.Val)), emit.List(es)))
+	}
+	return fmt.Sprintf("{| w_sd := %s; w_owner := %d; w_start := %s; w_end := %s; w_orig := %s; w_now := %s; w_height := %d; "+
+		"w_DL := %s; w_DF := %s; w_ent := %s; w_ab := %s; w_has_proxy := %s; w_pb := %s; "+
+		"w_stk_del := %s; w_stk_unb := %s; w_sc_del := %s; w_sc_unb := %s; w_out := %s; w_rew := %s; w_dep := %s |}",
+		emit.Bool(w.SD), w.Owner, emit.ZI(w.Start), emit.ZI(w.End), pairList(w.Orig), emit.ZI(w.Now), w.Height,
+		emit.Z(w.DL), emit.Z(w.DF), emit.List(ents), w.AB.coq(), emit.Bool(w.HasProxy), w.PB.coq(),
+		emit.Z(w.StkDel), unbList(w.StkUnb), emit.Z(w.ScDel), unbList(w.ScUnb), w.Out.coq(), w.Rew.coq(), w.Dep.coq())
+}
+func (w *worldObs) lockedCoq() string {
+	if w.Locked == nil {
+		return "None"
+	}
+	return emit.Some(pairList(w.Locked))
+}
+
+// ---------------------------------------------------------------- environment
+
+type env struct {
+	h            *apph.H
+	r            *emit.Rand
+	st           *emit.Stats
+	cf           *emit.CasesFile
+	owners       []int    // indices of accounts that are validator operators
+	vals         []string // all validator operator addresses, ascending (id = index + 1)
+	funder       int
+	outs         []int // watched outside accounts used as recipients / strangers
+	distr        sdk.AccAddress
+	scMod        sdk.AccAddress
+	bondSendable bool
+	ncases       int
+	// ctxTime, when after h.Time, is the time of the block "in progress": operations run at
+	// that time before the block's EndBlockers have settled anything (as transactions do)
+	ctxTime time.Time
+}
+
+func (e *env) ctx() sdk.Context {
+	if e.ctxTime.After(e.h.Time) {
+		return e.h.CtxAt(e.ctxTime)
+	}
+	return e.h.Ctx()
+}
+func (e *env) now() time.Time {
+	if e.ctxTime.After(e.h.Time) {
+		return e.ctxTime
+	}
+	return e.h.Time
+}
+
+func (e *env) valID(addr string) int {
+	for i, v := range e.vals {
+		if v == addr {
+			return i + 1
+		}
+	}
+	return 0
+}
+
+func (e *env) bal(ctx sdk.Context, a sdk.AccAddress) bal4 {
+	var b bal4
+	for i, d := range denoms {
+		b[i] = e.h.Bal(ctx, a, d).BigInt()
+	}
+	return b
+}
+
+// reward sources: the distribution module account and the share-class reward savers
+func (e *env) rewardSources(ctx sdk.Context) bal4 {
+	t := e.bal(ctx, e.distr)
+	for _, v := range e.vals {
+		t = t.add(e.bal(ctx, sctypes.RewardSaverAddress(v)))
+	}
+	return t
+}
+func (e *env) outsideTotal(ctx sdk.Context) bal4 {
+	t := zero4()
+	for i := range e.h.Accts {
+		t = t.add(e.bal(ctx, e.h.Accts[i].Addr))
+	}
+	return t
+}
+func (e *env) scBonded(ctx sdk.Context) *big.Int {
+	b, err := e.h.App.StakingKeeper.GetDelegatorBonded(ctx, e.scMod)
+	if err != nil {
+		panic(err)
+	}
+	return b.BigInt()
+}
+
+type scen struct {
+	e             *env
+	sd            bool
+	owner         int
+	addr          sdk.AccAddress
+	accNum        uint64
+	scDel         *big.Int
+	out, rew, dep bal4
+	start, end    time.Time
+	origFee       *big.Int
+}
+
+func (s *scen) proxy(ctx sdk.Context) sdk.AccAddress {
+	p, err := s.e.h.App.SelfdelegationKeeper.SelfDelegationProxies.Get(ctx, s.addr)
+	if err != nil {
+		return nil
+	}
+	return p
+}
+
+func (s *scen) accountIndex(addr string) int {
+	for i, a := range s.e.h.Accts {
+		if a.Addr.String() == addr {
+			return i
+		}
+	}
+	return -1
+}
+
+// observe dumps the projection at the context's time.
+func (s *scen) observe(ctx sdk.Context) *worldObs {
+	e := s.e
+	w := &worldObs{SD: s.sd, Now: ctx.HeaderInfo().Time.UnixNano(), Height: ctx.HeaderInfo().Height}
+	var owner string
+	var origC, dlC, dfC, lockedC sdk.Coins
+	var st, en *time.Time
+	qctx, _ := ctx.CacheContext()
+	// base info never panics; the schedule part can (Quo by zero)
+	func() {
+		defer func() {
+			if r := recover(); r != nil {
+				w.Locked = nil
+				lockedC = nil
+				owner = ""
+			}
+		}()
+		if s.sd {
+			r, err := e.h.App.AccountsKeeper.Query(qctx, s.addr, &sdlt.QueryLockupAccountInfoRequest{})
+			if err != nil {
+				panic(err)
+			}
+			x := r.(*sdlt.QueryLockupAccountInfoResponse)
+			owner, origC, dlC, dfC, st, en, lockedC = x.Owner, x.OriginalLocking, x.DelegatedLocking, x.DelegatedFree, x.StartTime, x.EndTime, x.LockedCoins
+		} else {
+			r, err := e.h.App.AccountsKeeper.Query(qctx, s.addr, &nvlt.QueryLockupAccountInfoRequest{})
+			if err != nil {
+				panic(err)
+			}
+			x := r.(*nvlt.QueryLockupAccountInfoResponse)
+			owner, origC, dlC, dfC, st, en, lockedC = x.Owner, x.OriginalLocking, x.DelegatedLocking, x.DelegatedFree, x.StartTime, x.EndTime, x.LockedCoins
+		}
+	}()
+	if owner == "" {
+		// the info query panicked inside the schedule: read the stored fields directly
+		owner = e.h.Accts[s.owner].Addr.String()
+		w.Locked = nil
+		dl, df, orig := s.rawLockup(ctx)
+		w.DL, w.DF = dl, df
+		w.Orig = orig
+		w.Start, w.End = s.start.UnixNano(), s.end.UnixNano()
+	} else {
+		w.DL, w.DF = dlC.AmountOf("urise").BigInt(), dfC.AmountOf("urise").BigInt()
+		for _, c := range origC {
+			w.Orig = append(w.Orig, [2]*big.Int{big.NewInt(int64(denomID(c.Denom))), c.Amount.BigInt()})
+		}
+		w.Start, w.End = st.UnixNano(), en.UnixNano()
+		w.Locked = [][2]*big.Int{}
+		for _, p := range w.Orig {
+			w.Locked = append(w.Locked, [2]*big.Int{p[0], lockedC.AmountOf(denoms[p[0].Int64()-1]).BigInt()})
+		}
+	}
+	w.Owner = s.accountIndex(owner)
+	w.Ent = s.entries(ctx)
+	w.AB = e.bal(ctx, s.addr)
+	w.PB = zero4()
+	w.StkDel = big.NewInt(0)
+	if p := s.proxy(ctx); p != nil {
+		w.HasProxy = true
+		w.PB = e.bal(ctx, p)
+		b, err := e.h.App.StakingKeeper.GetDelegatorBonded(ctx, p)
+		if err != nil {
+			panic(err)
+		}
+		w.StkDel = b.BigInt()
+		// the proxy only ever delegates to its root owner's validator
+		u, err := e.h.App.StakingKeeper.GetUnbondingDelegation(ctx, p, sdk.ValAddress(e.h.Accts[s.owner].Addr))
+		if err == nil {
+			for _, en := range u.Entries {
+				w.StkUnb = append(w.StkUnb, unb{T: en.CompletionTime.UnixNano(), Amt: en.Balance.BigInt()})
+			}
+		}
+	}
+	w.ScDel = new(big.Int).Set(s.scDel)
+	us, err := e.h.App.ShareclassKeeper.GetUnbondingsByAddress(ctx, s.addr)
+	if err != nil {
+		panic(err)
+	}
+	for _, u := range us {
+		w.ScUnb = append(w.ScUnb, unb{T: u.CompletionTime.UnixNano(), Amt: u.Amount.Amount.BigInt()})
+	}
+	w.Out, w.Rew, w.Dep = s.out, s.rew, s.dep
+	return w
+}
+
+// raw account state: key = field prefix byte + collection key
+func (s *scen) rawState(ctx sdk.Context, field byte, f func(key, val []byte)) {
+	it, err := s.e.h.App.AccountsKeeper.AccountsState.Iterate(ctx, collections.NewPrefixedPairRange[uint64, []byte](s.accNum))
+	if err != nil {
+		panic(err)
+	}
+	defer it.Close()
+	for ; it.Valid(); it.Next() {
+		kv, err := it.KeyValue()
+		if err != nil {
+			panic(err)
+		}
+		k := kv.Key.K2()
+		if len(k) > 0 && k[0] == field {
+			f(k[1:], kv.Value)
+		}
+	}
+}
+
+func (s *scen) rawLockup(ctx sdk.Context) (dl, df *big.Int, orig [][2]*big.Int) {
+	dl, df = big.NewInt(0), big.NewInt(0)
+	readInt := func(v []byte) *big.Int {
+		var i sdkmath.Int
+		if err := i.Unmarshal(v); err != nil {
+			panic(err)
+		}
+		return i.BigInt()
+	}
+	s.rawState(ctx, 2, func(k, v []byte) {
+		if string(k) == "urise" {
+			dl = readInt(v)
+		}
+	})
+	s.rawState(ctx, 1, func(k, v []byte) {
+		if string(k) == "urise" {
+			df = readInt(v)
+		}
+	})
+	s.rawState(ctx, 0, func(k, v []byte) {
+		orig = append(orig, [2]*big.Int{big.NewInt(int64(denomID(string(k)))), readInt(v)})
+	})
+	sort.Slice(orig, func(i, j int) bool { return orig[i][0].Cmp(orig[j][0]) < 0 })
+	return
+}
+
+func (s *scen) entries(ctx sdk.Context) (out []struct {
+	Val int
+	L   []entryObs
+}) {
+	cdc := s.e.h.App.AppCodec()
+	s.rawState(ctx, 7, func(k, v []byte) {
+		var l []entryObs
+		if s.sd {
+			var es sdlt.UnbondingEntries
+			if err := cdc.Unmarshal(v, &es); err != nil {
+				panic(err)
+			}
+			for _, x := range es.Entries {
+				l = append(l, entryObs{End: x.EndTime.UnixNano(), Amt: x.Amount.Amount.BigInt(), IsFee: x.Amount.Denom == "urise", Height: x.CreationHeight})
+			}
+		} else {
+			var es nvlt.UnbondingEntries
+			if err := cdc.Unmarshal(v, &es); err != nil {
+				panic(err)
+			}
+			for _, x := range es.Entries {
+				l = append(l, entryObs{End: x.EndTime.UnixNano(), Amt: x.Amount.Amount.BigInt(), IsFee: x.Amount.Denom == "urise", Height: x.CreationHeight})
+			}
+		}
+		out = append(out, struct {
+			Val int
+			L   []entryObs
+		}{Val: s.e.valID(string(k)), L: l})
+	})
+	return
+}
+
+// ---------------------------------------------------------------- operations
+
+type coin struct {
+	D int
+	A *big.Int
+}
+
+func coinsCoq(cs []coin) string {
+	xs := make([]string, len(cs))
+	for i, c := range cs {
+		xs[i] = emit.Tuple(emit.ZI(int64(c.D)), emit.Z(c.A))
+	}
+	return emit.List(xs)
+}
+func rawCoins(cs []coin) sdk.Coins {
+	out := sdk.Coins{}
+	for _, c := range cs {
+		out = append(out, sdk.Coin{Denom: denoms[c.D-1], Amount: sdkmath.NewIntFromBigInt(c.A)})
+	}
+	return out
+}
+func coinsStr(cs []coin) string {
+	xs := make([]string, len(cs))
+	for i, c := range cs {
+		xs[i] = c.A.String() + denoms[c.D-1]
+	}
+	return strings.Join(xs, ",")
+}
+
+type opDesc struct {
+	Kind    string
+	ES, MS  int    // executing account, msg.Sender field (account indices)
+	To      string // TAcct | TProxy | TOut | TBlocked
+	Coins   []coin
+	Val     int
+	D       int
+	Amt     *big.Int
+	ToProxy bool
+	T       int64
+	H       int64
+}
+
+func errClass(err error) int {
+	if err == nil {
+		return 0
+	}
+	if strings.HasPrefix(err.Error(), "panic:") {
+		return 2
+	}
+	return 1
+}
+
+// moduleFailure: did the failure come from the module message the handler sent (the oracle),
+// as opposed to the handler's own checks
+func moduleFailure(kind string, err error) bool {
+	if err == nil {
+		return false
+	}
+	m := err.Error()
+	if strings.HasPrefix(m, "panic:") {
+		return false
+	}
+	switch kind {
+	case "Delegate", "Undelegate", "WithdrawReward", "SelfDelegate":
+		return strings.Contains(m, "error executing message") || strings.Contains(m, "failed to execute message")
+	case "PUndelegate", "PWithdrawReward":
+		return !strings.Contains(m, "unauthorized")
+	}
+	return false
+}
+
+func (s *scen) target(ctx sdk.Context, to string) sdk.AccAddress {
+	switch to {
+	case "TAcct":
+		return s.addr
+	case "TProxy":
+		return s.proxy(ctx)
+	case "TBlocked":
+		return s.e.distr
+	}
+	return s.e.h.Accts[s.e.outs[0]].Addr
+}
+
+func rz(x *big.Int) string { return emit.Z(x) }
+
+// doExec runs one account / deposit operation and emits the case.
+func (s *scen) doExec(o opDesc, tag string) {
+	e := s.e
+	h := e.h
+	ctx := e.ctx()
+	pre := s.observe(ctx)
+	preOut, preRew, preSc := e.outsideTotal(ctx), e.rewardSources(ctx), e.scBonded(ctx)
+	addrOf := func(i int) string {
+		if i < 0 || i >= len(h.Accts) {
+			return "not-an-address"
+		}
+		return h.Accts[i].Addr.String()
+	}
+	es := h.Accts[0].Addr
+	if o.ES >= 0 && o.ES < len(h.Accts) {
+		es = h.Accts[o.ES].Addr
+	}
+	ms := addrOf(o.MS)
+	var completion int64
+	var respAmt *big.Int
+	var err error
+	run := func(target sdk.AccAddress, msg sdk.Msg, after func(resp any)) {
+		err = apph.Tx(ctx, func(c sdk.Context) error {
+			r, e2 := h.App.AccountsKeeper.Execute(c, target, es, msg, nil)
+			if e2 == nil && after != nil {
+				after(r)
+			}
+			return e2
+		})
+	}
+	proxy := s.proxy(ctx)
+	switch o.Kind {
+	case "Send":
+		to := s.target(ctx, o.To)
+		if s.sd {
+			run(s.addr, &sdlt.MsgSend{Sender: ms, ToAddress: to.String(), Amount: rawCoins(o.Coins)}, nil)
+		} else {
+			run(s.addr, &nvlt.MsgSend{Sender: ms, ToAddress: to.String(), Amount: rawCoins(o.Coins)}, nil)
+		}
+	case "Delegate":
+		c := sdk.Coin{Denom: denoms[o.D-1], Amount: sdkmath.NewIntFromBigInt(o.Amt)}
+		if s.sd { // no such handler on this variant: send the other variant's message
+			run(s.addr, &nvlt.MsgDelegate{Sender: ms, ValidatorAddress: e.vals[o.Val-1], Amount: c}, nil)
+		} else {
+			run(s.addr, &nvlt.MsgDelegate{Sender: ms, ValidatorAddress: e.vals[o.Val-1], Amount: c}, nil)
+		}
+	case "Undelegate":
+		c := sdk.Coin{Denom: denoms[o.D-1], Amount: sdkmath.NewIntFromBigInt(o.Amt)}
+		run(s.addr, &nvlt.MsgUndelegate{Sender: ms, ValidatorAddress: e.vals[o.Val-1], Amount: c}, func(resp any) {
+			r := resp.(*nvlt.MsgExecuteMessagesResponse)
+			var ur sctypes.MsgNonVotingUndelegateResponse
+			if err := h.App.AppCodec().Unmarshal(r.Responses[0].Value, &ur); err != nil {
+				panic(err)
+			}
+			completion = ur.CompletionTime.UnixNano()
+			respAmt = ur.Amount.Amount.BigInt()
+		})
+	case "WithdrawReward":
+		run(s.addr, &nvlt.MsgWithdrawReward{Sender: ms, ValidatorAddress: e.vals[o.Val-1]}, nil)
+	case "SelfDelegate":
+		run(s.addr, &sdlt.MsgSelfDelegate{Sender: ms, Amount: sdkmath.NewIntFromBigInt(o.Amt)}, nil)
+	case "WithdrawUnbonded":
+		run(s.addr, &sdlt.MsgWithdrawSelfDelegationUnbonded{Sender: ms, Amount: sdkmath.NewIntFromBigInt(o.Amt)}, nil)
+	case "PUndelegate":
+		run(proxy, &proxyt.MsgUndelegate{Sender: ms, Amount: sdkmath.NewIntFromBigInt(o.Amt)}, nil)
+		if err == nil {
+			ut, e2 := h.App.StakingKeeper.UnbondingTime(ctx)
+			if e2 != nil {
+				panic(e2)
+			}
+			completion = ctx.HeaderInfo().Time.Add(ut).UnixNano()
+		}
+	case "PWithdrawReward":
+		run(proxy, &proxyt.MsgWithdrawReward{Sender: ms, ValidatorAddress: e.vals[o.Val-1]}, nil)
+	case "PSend":
+		to := s.target(ctx, o.To)
+		run(proxy, &proxyt.MsgSend{Sender: ms, ToAddress: to.String(), Amount: rawCoins(o.Coins)}, nil)
+	case "Deposit":
+		to := s.addr
+		if o.ToProxy {
+			to = proxy
+		}
+		bs := bankkeeper.NewMsgServerImpl(h.App.BankKeeper)
+		err = apph.Tx(ctx, func(c sdk.Context) error {
+			_, e2 := bs.Send(c, &banktypes.MsgSend{FromAddress: h.Accts[e.funder].Addr.String(), ToAddress: to.String(), Amount: rawCoins(o.Coins)})
+			return e2
+		})
+	default:
+		panic("unknown op " + o.Kind)
+	}
+	code := errClass(err)
+	// observed ghost updates, from balances the model does not predict
+	postOut, postRew, postSc := e.outsideTotal(ctx), e.rewardSources(ctx), e.scBonded(ctx)
+	dOut := postOut.sub(preOut)
+	dRew := preRew.sub(postRew)
+	if o.Kind == "Deposit" {
+		s.dep = s.dep.add(dOut.neg())
+	} else {
+		s.out = s.out.add(dOut)
+		s.rew = s.rew.add(dRew)
+	}
+	s.scDel = new(big.Int).Add(s.scDel, new(big.Int).Sub(postSc, preSc))
+	if s.scDel.Sign() < 0 {
+		// the share-class module let the account undelegate more than it had put in (shares are
+		// rounded down, C10): the surplus is other delegators' money, a third-party inflow
+		over := zero4()
+		over[dFEE-1] = new(big.Int).Neg(s.scDel)
+		s.dep = s.dep.add(over)
+		s.scDel = big.NewInt(0)
+	}
+	post := s.observe(ctx)
+
+	// oracle terms
+	rf, rb := dRew[dFEE-1], dRew[dBOND-1]
+	modFail := moduleFailure(o.Kind, err)
+	okOr := func(v string) string {
+		if modFail {
+			return "(Err 1)"
+		}
+		return "(Ok " + v + ")"
+	}
+	toC := o.To
+	var term string
+	switch o.Kind {
+	case "Send":
+		term = fmt.Sprintf("(OSend %s %s %s %s)", emit.ZI(int64(o.ES)), emit.ZI(int64(o.MS)), toC, coinsCoq(o.Coins))
+	case "Delegate":
+		term = fmt.Sprintf("(ODelegate %s %s %d %d %s %s)", emit.ZI(int64(o.ES)), emit.ZI(int64(o.MS)), o.Val, o.D, rz(o.Amt), okOr(emit.Tuple(rz(rf), rz(rb))))
+	case "Undelegate":
+		if respAmt == nil {
+			respAmt = big.NewInt(0)
+		}
+		term = fmt.Sprintf("(OUndelegate %s %s %d %d %s %s)", emit.ZI(int64(o.ES)), emit.ZI(int64(o.MS)), o.Val, o.D, rz(o.Amt),
+			okOr(emit.Tuple(emit.ZI(completion), rz(respAmt), rz(rf), rz(rb))))
+	case "WithdrawReward":
+		term = fmt.Sprintf("(OWithdrawReward %s %s %d %s)", emit.ZI(int64(o.ES)), emit.ZI(int64(o.MS)), o.Val, okOr(emit.Tuple(rz(rf), rz(rb))))
+	case "SelfDelegate":
+		term = fmt.Sprintf("(OSelfDelegate %s %s %s %s)", emit.ZI(int64(o.ES)), emit.ZI(int64(o.MS)), rz(o.Amt), okOr(emit.Tuple(rz(rf), rz(rb))))
+	case "WithdrawUnbonded":
+		term = fmt.Sprintf("(OWithdrawUnbonded %s %s %s)", emit.ZI(int64(o.ES)), emit.ZI(int64(o.MS)), rz(o.Amt))
+	case "PUndelegate":
+		term = fmt.Sprintf("(OPUndelegate %s %s %s %s)", emit.ZI(int64(o.ES)), emit.ZI(int64(o.MS)), rz(o.Amt), okOr(emit.Tuple(emit.ZI(completion), rz(rf), rz(rb))))
+	case "PWithdrawReward":
+		term = fmt.Sprintf("(OPWithdrawReward %s %s %d %s)", emit.ZI(int64(o.ES)), emit.ZI(int64(o.MS)), o.Val, okOr(emit.Tuple(rz(rf), rz(rb))))
+	case "PSend":
+		term = fmt.Sprintf("(OPSend %s %s %s %s)", emit.ZI(int64(o.ES)), emit.ZI(int64(o.MS)), toC, coinsCoq(o.Coins))
+	case "Deposit":
+		term = fmt.Sprintf("(ODeposit %s %s)", emit.Bool(o.ToProxy), coinsCoq(o.Coins))
+	}
+	s.emit(pre, term, code, post, o, err, tag)
+}
+
+func (s *scen) emit(pre *worldObs, opTerm string, code int, post *worldObs, o opDesc, err error, tag string) {
+	e := s.e
+	term := fmt.Sprintf("{| k_conf := {| fixed_sender := true; bond_sendable := %s |};\n     k_pre := %s;\n     k_op := %s; k_code := %d;\n     k_post := %s;\n     k_lk_pre := %s; k_lk_post := %s |}",
+		emit.Bool(e.bondSendable), pre.coq(), opTerm, code, post.coq(), pre.lockedCoq(), post.lockedCoq())
+	e.cf.Add("CStep " + term)
+	info := map[string]any{"tag": tag, "op": o.Kind, "variant_self_delegatable": s.sd, "lockup": s.addr.String(),
+		"exec_sender": o.ES, "msg_sender": o.MS, "owner": pre.Owner, "code": code,
+		"now_ns": pre.Now, "start_ns": pre.Start, "end_ns": pre.End,
+		"pre": map[string]any{"DL": pre.DL.String(), "DF": pre.DF.String(), "acct": pre.AB.strs(), "proxy": pre.PB.strs(), "stk_del": pre.StkDel.String(), "sc_del": pre.ScDel.String()},
+		"post": map[string]any{"DL": post.DL.String(), "DF": post.DF.String(), "acct": post.AB.strs(), "proxy": post.PB.strs(), "stk_del": post.StkDel.String(), "sc_del": post.ScDel.String(),
+			"out": post.Out.strs(), "rew": post.Rew.strs(), "dep": post.Dep.strs(), "now_ns": post.Now}}
+	if o.Coins != nil {
+		info["coins"] = coinsStr(o.Coins)
+		info["to"] = o.To
+	}
+	if o.Amt != nil {
+		info["amount"] = o.Amt.String()
+	}
+	if o.Kind == "Block" {
+		info["block_time_ns"] = o.T
+	}
+	if err != nil {
+		info["err"] = err.Error()
+	}
+	if post.Locked != nil && len(post.Locked) > 0 {
+		info["locked"] = post.Locked[0][1].String()
+	}
+	e.st.Info(info)
+	e.st.Evaluations++
+	e.ncases++
+	res := []string{"ok", "err", "panic"}[code]
+	e.st.Count(o.Kind + ":" + res)
+	// non-trivial: owner action while 0 < locked(now) < original and DL > 0
+	if o.Kind != "Block" && o.Kind != "Deposit" && pre.Locked != nil {
+		for _, p := range pre.Locked {
+			if p[0].Int64() == dFEE {
+				switch {
+				case p[1].Sign() == 0:
+					e.st.Count("state:unlocked")
+				case p[1].Cmp(s.origFee) == 0:
+					e.st.Count("state:fully-locked")
+				case pre.DL.Sign() > 0:
+					e.st.Count("state:partly-locked,DL>0")
+				default:
+					e.st.Count("state:partly-locked,DL=0")
+				}
+			}
+		}
+	}
+	if o.Kind != "Block" && o.Kind != "Deposit" && o.ES == pre.Owner && o.MS == pre.Owner && pre.Locked != nil {
+		for _, p := range pre.Locked {
+			if p[0].Int64() == dFEE && p[1].Sign() > 0 && p[1].Cmp(s.origFee) < 0 && pre.DL.Sign() > 0 {
+				pm := new(big.Int).Div(new(big.Int).Mul(p[1], big.NewInt(10)), s.origFee)
+				e.st.Nontriv(fmt.Sprintf("%v/%s/%s/%s/%d", s.sd, o.Kind, res, pm, pre.DL.BitLen()))
+				e.st.Count("nontrivial-steps")
+			}
+		}
+	}
+	if code == 0 && o.Kind != "Block" {
+		e.st.Sample(info)
+	}
+}
+
+// doBlock advances the chain by one block at time t and emits the case.
+func (s *scen) doBlock(t time.Time, tag string) error {
+	e := s.e
+	h := e.h
+	pre := s.observe(e.ctx())
+	if t.Before(e.now()) {
+		t = e.now()
+	}
+	dt := t.Sub(h.Time)
+	if dt <= 0 {
+		dt = time.Millisecond
+	}
+	if err := e.block(dt); err != nil {
+		return fmt.Errorf("block at %s failed: %w", h.Time, err)
+	}
+	e.ctxTime = time.Time{}
+	post := s.observe(h.Ctx())
+	term := fmt.Sprintf("(OBlock %s %d)", emit.ZI(h.Time.UnixNano()), h.Height)
+	s.emit(pre, term, 0, post, opDesc{Kind: "Block", ES: -2, MS: -2, T: h.Time.UnixNano()}, nil, tag)
+	return nil
+}
+
+// block runs FinalizeBlock+Commit like apph.Block, but with the bonded validators' votes in the
+// last commit, so that the distribution module allocates the block's fees / minted coins to
+// validators and their delegators (with no votes everything goes to the community pool and no
+// delegator ever earns a reward).
+func (e *env) block(dt time.Duration) (err error) {
+	h := e.h
+	ctx := h.Ctx()
+	var votes []abci.VoteInfo
+	vs, err := h.App.StakingKeeper.GetBondedValidatorsByPower(ctx)
+	if err != nil {
+		return err
+	}
+	pr := h.App.StakingKeeper.PowerReduction(ctx)
+	for _, v := range vs {
+		ca, err := v.GetConsAddr()
+		if err != nil {
+			return err
+		}
+		if sdk.ValAddress(h.Vals[0].Address).String() == v.OperatorAddress {
+			continue // the genesis validator of the test genesis has no signing info: it does not vote
+		}
+		votes = append(votes, abci.VoteInfo{Validator: abci.Validator{Address: ca, Power: v.GetConsensusPower(pr)}, BlockIdFlag: cmtproto.BlockIDFlagCommit})
+	}
+	h.Height++
+	h.Time = h.Time.Add(dt)
+	defer func() {
+		if r := recover(); r != nil {
+			err = fmt.Errorf("panic: %v", r)
+		}
+	}()
+	_, err = h.App.FinalizeBlock(&abci.FinalizeBlockRequest{Height: h.Height, Time: h.Time, DecidedLastCommit: abci.CommitInfo{Votes: votes}})
+	if err != nil {
+		return err
+	}
+	_, err = h.App.Commit()
+	return err
+}
+
+// safeTime moves a candidate block time out of the windows [floor(T), T) of pending
+// share-class unbondings with a fractional completion time T: a block there makes the
+// share-class EndBlocker fail (it pays by second-truncated completion time while staking
+// has not released the stake yet) -- that is finding C01#6, not a subject of this check.
+func (e *env) safeTime(t time.Time) time.Time {
+	us, err := e.h.App.ShareclassKeeper.GetAllUnbondings(e.h.Ctx())
+	if err != nil {
+		panic(err)
+	}
+	for i := 0; i < 3; i++ {
+		moved := false
+		for _, u := range us {
+			c := u.CompletionTime
+			if c.Nanosecond() != 0 && !t.Before(c.Truncate(time.Second)) && t.Before(c) {
+				t = c
+				moved = true
+			}
+		}
+		if !moved {
+			break
+		}
+	}
+	return t
+}
+
+// ---------------------------------------------------------------- scenarios
+
+func (e *env) newScenario(sd bool, owner int, start, end time.Time, startZero bool, funds []coin) (*scen, error) {
+	h := e.h
+	ctx := e.ctx()
+	s := &scen{e: e, sd: sd, owner: owner, scDel: big.NewInt(0), out: zero4(), rew: zero4(), dep: zero4()}
+	st := start
+	if startZero {
+		st = time.Time{}
+	}
+	var addr []byte
+	err := apph.Tx(ctx, func(c sdk.Context) error {
+		var e2 error
+		if sd {
+			_, addr, e2 = h.App.AccountsKeeper.Init(c, sdl.CONTINUOUS_LOCKING_ACCOUNT, h.Accts[e.funder].Addr,
+				&sdlt.MsgInitSelfDelegatableLockupAccount{Owner: h.Accts[owner].Addr.String(), StartTime: st, EndTime: end}, rawCoins(funds), nil)
+		} else {
+			_, addr, e2 = h.App.AccountsKeeper.Init(c, nvl.CONTINUOUS_LOCKING_ACCOUNT, h.Accts[e.funder].Addr,
+				&nvlt.MsgInitNonVotingDelegatableLockupAccount{Owner: h.Accts[owner].Addr.String(), StartTime: st, EndTime: end}, rawCoins(funds), nil)
+		}
+		return e2
+	})
+	if err != nil {
+		return nil, err
+	}
+	s.addr = addr
+	n, err := h.App.AccountsKeeper.AccountByNumber.Get(ctx, addr)
+	if err != nil {
+		return nil, err
+	}
+	s.accNum = n
+	s.start, s.end = start, end
+	if startZero {
+		s.start = e.now()
+	}
+	s.origFee = big.NewInt(0)
+	for _, c := range funds {
+		if c.D == dFEE {
+			s.origFee = new(big.Int).Set(c.A)
+		}
+	}
+	return s, nil
+}
+
+func big10(exp int) *big.Int { return new(big.Int).Exp(big.NewInt(10), big.NewInt(int64(exp)), nil) }
+
+func (s *scen) amountNear(r *emit.Rand, ref *big.Int) *big.Int {
+	switch r.Intn(9) {
+	case 0:
+		return new(big.Int).Set(ref)
+	case 1:
+		return new(big.Int).Add(ref, big.NewInt(1))
+	case 2:
+		if ref.Sign() > 0 {
+			return new(big.Int).Sub(ref, big.NewInt(1))
+		}
+		return big.NewInt(1)
+	case 3:
+		return big.NewInt(1)
+	case 4:
+		return new(big.Int).Div(ref, big.NewInt(2))
+	case 5:
+		return new(big.Int).Div(ref, big.NewInt(3))
+	default:
+		return r.Big(new(big.Int).Add(ref, big.NewInt(1)))
+	}
+}
+
+func (s *scen) spendable(w *worldObs) *big.Int {
+	if w.Locked == nil {
+		return w.AB[dFEE-1]
+	}
+	L := big.NewInt(0)
+	for _, p := range w.Locked {
+		if p[0].Int64() == dFEE {
+			L = p[1]
+		}
+	}
+	m := L
+	if w.DL.Cmp(L) < 0 {
+		m = w.DL
+	}
+	nb := new(big.Int).Sub(L, m)
+	sp := new(big.Int).Sub(w.AB[dFEE-1], nb)
+	if sp.Sign() < 0 {
+		return big.NewInt(0)
+	}
+	return sp
+}
+
+// sender pair: mostly the owner, sometimes a stranger, sometimes a stranger spoofing the owner
+func (s *scen) senders(r *emit.Rand) (es, ms int) {
+	e := s.e
+	switch r.Intn(32) {
+	case 0:
+		x := e.outs[r.Intn(len(e.outs))]
+		return x, x
+	case 1:
+		return e.outs[r.Intn(len(e.outs))], s.owner // forged msg.Sender
+	case 2:
+		return s.owner, e.outs[r.Intn(len(e.outs))]
+	case 3:
+		return e.funder, e.funder
+	}
+	return s.owner, s.owner
+}
+
+func (s *scen) sendCoins(r *emit.Rand, w *worldObs, fromProxy bool) []coin {
+	src := w.AB
+	feeRef := s.spendable(w)
+	if fromProxy {
+		src = w.PB
+		feeRef = src[dFEE-1]
+	}
+	switch r.Intn(40) {
+	case 0: // empty
+		return []coin{}
+	case 1: // unsorted / duplicate
+		return []coin{{dUSDC, big.NewInt(1)}, {dFEE, big.NewInt(1)}}
+	case 2:
+		return []coin{{dFEE, big.NewInt(1)}, {dFEE, big.NewInt(1)}}
+	case 3: // zero / negative amount
+		return []coin{{dFEE, big.NewInt(int64(-r.Intn(2)))}}
+	case 4: // bond denom
+		return []coin{{dBOND, s.amountNear(r, src[dBOND-1])}}
+	case 5: // a denom the account was not created with
+		return []coin{{dATOM, s.amountNear(r, src[dATOM-1])}}
+	case 6, 7, 8: // two denoms
+		return []coin{{dFEE, s.posAmount(r, feeRef)}, {dUSDC, s.posAmount(r, src[dUSDC-1])}}
+	case 9, 10:
+		return []coin{{dUSDC, s.posAmount(r, src[dUSDC-1])}}
+	}
+	return []coin{{dFEE, s.posAmount(r, feeRef)}}
+}
+
+func (s *scen) posAmount(r *emit.Rand, ref *big.Int) *big.Int {
+	x := s.amountNear(r, ref)
+	if x.Sign() == 0 {
+		return big.NewInt(1)
+	}
+	return x
+}
+
+func (s *scen) pickTo(r *emit.Rand, w *worldObs) string {
+	switch r.Intn(10) {
+	case 0:
+		return "TAcct"
+	case 1:
+		if w.HasProxy {
+			return "TProxy"
+		}
+	case 2:
+		return "TBlocked"
+	}
+	return "TOut"
+}
+
+// one random step of a history: a weighted choice among the operations that make sense in
+// the current state (plus a thin stream of ones that do not)
+func (s *scen) randomStep(r *emit.Rand) error {
+	e := s.e
+	h := e.h
+	// sometimes open the next block: the following operations run at its time, before its
+	// EndBlockers (staking / share-class settlement) have run
+	if !e.ctxTime.After(h.Time) && r.Chance(1, 8) {
+		e.ctxTime = e.safeTime(s.pickTime(r, s.observe(e.ctx())))
+	}
+	w := s.observe(e.ctx())
+	es, ms := s.senders(r)
+	type cand struct {
+		w int
+		f func() error
+	}
+	ex := func(o opDesc) func() error { return func() error { s.doExec(o, "gen"); return nil } }
+	pos := func(x *big.Int, yes, no int) int {
+		if x.Sign() > 0 {
+			return yes
+		}
+		return no
+	}
+	ownVal := e.valID(sdk.ValAddress(h.Accts[s.owner].Addr).String())
+	cs := []cand{
+		{24, func() error { return s.doBlock(e.safeTime(s.pickTime(r, w)), "gen") }},
+		{18, ex(opDesc{Kind: "Send", ES: es, MS: ms, To: s.pickTo(r, w), Coins: s.sendCoins(r, w, false)})},
+		{6, func() error {
+			c := []coin{{dFEE, s.amountNear(r, big10(3+r.Intn(9)))}}
+			if r.Chance(1, 5) {
+				c = []coin{{dUSDC, big.NewInt(int64(1 + r.Intn(1000)))}}
+			}
+			if r.Chance(1, 12) {
+				c = []coin{{dBOND, big.NewInt(5)}}
+			}
+			e.pickFunder()
+			for i := range c { // the depositor can afford it
+				if b := h.Bal(e.ctx(), h.Accts[e.funder].Addr, denoms[c[i].D-1]).BigInt(); b.Cmp(c[i].A) < 0 {
+					c[i].A = new(big.Int).Div(b, big.NewInt(2))
+				}
+			}
+			s.doExec(opDesc{Kind: "Deposit", ES: -2, MS: -2, ToProxy: w.HasProxy && r.Chance(1, 3), Coins: c}, "gen")
+			return nil
+		}},
+	}
+	if s.sd {
+		cs = append(cs,
+			cand{pos(w.AB[dFEE-1], 13, 2) + s.wantDL(w), ex(opDesc{Kind: "SelfDelegate", ES: es, MS: ms, Amt: s.delegAmount(r, w)})},
+			cand{pos(w.PB[dBOND-1], 13, 2), func() error {
+				ref := w.PB[dBOND-1]
+				if r.Chance(1, 4) {
+					ref = new(big.Int).Add(w.DL, w.DF)
+				}
+				s.doExec(opDesc{Kind: "WithdrawUnbonded", ES: es, MS: ms, Amt: s.signed(r, s.amountNear(r, ref))}, "gen")
+				return nil
+			}},
+			cand{1, ex(opDesc{Kind: "Delegate", ES: es, MS: ms, Val: 1, D: dFEE, Amt: big.NewInt(10)})}, // no such handler
+		)
+		if w.HasProxy {
+			cs = append(cs,
+				cand{pos(w.StkDel, 11, 1), ex(opDesc{Kind: "PUndelegate", ES: es, MS: ms, Amt: s.signed(r, s.amountNear(r, w.StkDel))})},
+				cand{4, ex(opDesc{Kind: "PWithdrawReward", ES: es, MS: ms, Val: ownVal})},
+				cand{8, ex(opDesc{Kind: "PSend", ES: es, MS: ms, To: s.pickTo(r, w), Coins: s.sendCoins(r, w, true)})},
+			)
+		}
+	} else {
+		val := 1 + r.Intn(len(e.vals))
+		d := dFEE
+		if r.Chance(1, 12) {
+			d = 1 + r.Intn(4)
+		}
+		ud := dFEE
+		if r.Chance(1, 14) {
+			ud = dBOND
+		}
+		cs = append(cs,
+			cand{pos(w.AB[dFEE-1], 15, 2) + s.wantDL(w), ex(opDesc{Kind: "Delegate", ES: es, MS: ms, Val: val, D: d, Amt: s.delegAmount(r, w)})},
+			cand{pos(s.scDel, 14, 2), ex(opDesc{Kind: "Undelegate", ES: es, MS: ms, Val: s.sharesVal(r, val), D: ud, Amt: s.signed(r, s.undelAmount(r))})},
+			cand{3, ex(opDesc{Kind: "WithdrawReward", ES: es, MS: ms, Val: val})},
+			cand{1, ex(opDesc{Kind: "SelfDelegate", ES: es, MS: ms, Amt: big.NewInt(10)})}, // no such handler
+		)
+	}
+	tot := 0
+	for _, c := range cs {
+		tot += c.w
+	}
+	k := r.Intn(tot)
+	for _, c := range cs {
+		if k < c.w {
+			return c.f()
+		}
+		k -= c.w
+	}
+	return nil
+}
+
+// wantDL: extra weight for delegating while funds are locked, there is a balance, and DL is still 0
+func (s *scen) wantDL(w *worldObs) int {
+	if w.Locked == nil || w.DL.Sign() > 0 || w.AB[dFEE-1].Sign() == 0 {
+		return 0
+	}
+	for _, p := range w.Locked {
+		if p[0].Int64() == dFEE && p[1].Sign() > 0 {
+			return 40
+		}
+	}
+	return 0
+}
+
+func (s *scen) undelAmount(r *emit.Rand) *big.Int {
+	x := s.amountNear(r, s.scDel)
+	if x.Sign() == 0 && r.Chance(5, 6) {
+		x = big.NewInt(1)
+	}
+	return x
+}
+
+func (s *scen) signed(r *emit.Rand, x *big.Int) *big.Int {
+	if r.Chance(1, 25) {
+		return new(big.Int).Neg(new(big.Int).Add(x, big.NewInt(1)))
+	}
+	return x
+}
+
+func (s *scen) delegAmount(r *emit.Rand, w *worldObs) *big.Int {
+	bal := w.AB[dFEE-1]
+	switch r.Intn(10) {
+	case 0:
+		return big.NewInt(0)
+	case 1:
+		return new(big.Int).Add(bal, big.NewInt(1))
+	case 2:
+		return new(big.Int).Set(bal)
+	case 3:
+		return big.NewInt(-3)
+	}
+	x := s.amountNear(r, bal)
+	if x.Sign() == 0 {
+		x = big.NewInt(1)
+	}
+	return x
+}
+
+// sharesVal prefers a validator on which the account holds share tokens
+func (s *scen) sharesVal(r *emit.Rand, fallback int) int {
+	ctx := s.e.ctx()
+	var have []int
+	for i, v := range s.e.vals {
+		if s.e.h.Bal(ctx, s.addr, sctypes.NonVotingShareTokenDenom(v)).IsPositive() {
+			have = append(have, i+1)
+		}
+	}
+	if len(have) == 0 || r.Chance(1, 10) {
+		return fallback
+	}
+	return have[r.Intn(len(have))]
+}
+
+// pickTime: the next block time -- small steps, the schedule's start and end and every
+// unbonding completion +- sub-second, and points inside the schedule.
+func (s *scen) pickTime(r *emit.Rand, w *worldObs) time.Time {
+	now := s.e.now()
+	var marks []time.Time
+	add := func(ns int64) {
+		t := time.Unix(0, ns).UTC()
+		if t.After(now) {
+			marks = append(marks, t)
+		}
+	}
+	add(w.Start)
+	add(w.End)
+	for _, u := range w.StkUnb {
+		add(u.T)
+	}
+	for _, u := range w.ScUnb {
+		add(u.T)
+	}
+	for _, kv := range w.Ent {
+		for _, en := range kv.L {
+			add(en.End)
+		}
+	}
+	sort.Slice(marks, func(i, j int) bool { return marks[i].Before(marks[j]) })
+	jitter := []time.Duration{0, time.Nanosecond, -time.Nanosecond, 400 * time.Millisecond, -400 * time.Millisecond, time.Second, -time.Second, 1500 * time.Millisecond}
+	near := func(m time.Time) time.Time {
+		t := m.Add(jitter[r.Intn(len(jitter))])
+		if t.After(now) {
+			return t
+		}
+		return m
+	}
+	st, en := time.Unix(0, w.Start).UTC(), time.Unix(0, w.End).UTC()
+	var unbMarks []time.Time // completions of unbondings / recorded entries
+	for _, m := range marks {
+		if !m.Equal(st) && !m.Equal(en) {
+			unbMarks = append(unbMarks, m)
+		}
+	}
+	c := r.Intn(100)
+	switch {
+	case c < 35 && en.After(now):
+		// a point inside the remaining schedule
+		from := now
+		if st.After(now) {
+			from = st
+		}
+		span := en.Sub(from)
+		if span > 0 {
+			f := time.Duration(r.Int63n(int64(span)/10 + 1))
+			return from.Add(f + time.Duration(r.Int63n(1_000_000_000)))
+		}
+	case c < 60 && len(unbMarks) > 0:
+		if r.Chance(2, 3) {
+			return near(unbMarks[0])
+		}
+		return near(unbMarks[r.Intn(len(unbMarks))])
+	case c < 70 && st.After(now):
+		return near(st)
+	case c < 75 && en.After(now):
+		return near(en)
+	}
+	return now.Add(time.Duration(1+r.Intn(120))*time.Second + time.Duration(r.Int63n(1_000_000_000)))
+}
+
+// ---------------------------------------------------------------- Init cases
+
+func optT(zero bool, t time.Time) string {
+	if zero {
+		return "None"
+	}
+	return emit.Some(emit.ZI(t.UnixNano()))
+}
+
+func (e *env) initCase(sd bool, start, end time.Time, startZero, endZero bool, funds []coin, tag string) *scen {
+	en := end
+	if endZero {
+		en = time.Time{}
+	}
+	e.pickFunder()
+	fundsOK := true
+	for _, c := range funds {
+		if c.D == dBOND && !e.bondSendable {
+			fundsOK = false
+		}
+		if e.h.Bal(e.ctx(), e.h.Accts[e.funder].Addr, denoms[c.D-1]).BigInt().Cmp(c.A) < 0 {
+			fundsOK = false
+		}
+	}
+	s, err := e.newScenario(sd, e.owners[e.r.Intn(len(e.owners))], start, en, startZero, funds)
+	obs := "None"
+	if err == nil {
+		w := s.observe(e.ctx())
+		s.dep = w.AB.sub(fundsBal(funds)) // anything the address held before its creation
+		w = s.observe(e.ctx())
+		obs = emit.Some(emit.Tuple(emit.ZI(w.Start), emit.ZI(w.End), pairList(w.Orig), emit.Z(w.DL), emit.Z(w.DF)))
+	}
+	e.cf.Add(fmt.Sprintf("CInit %s %s %s %s %s %s", optT(startZero, start), optT(endZero, end), emit.ZI(e.now().UnixNano()), coinsCoq(funds), emit.Bool(fundsOK), obs))
+	info := map[string]any{"tag": tag, "op": "Init", "variant_self_delegatable": sd, "start": start.String(), "end": end.String(), "start_zero": startZero, "end_zero": endZero, "funds": coinsStr(funds)}
+	if err != nil {
+		info["err"] = err.Error()
+		e.st.Count("Init:err")
+	} else {
+		e.st.Count("Init:ok")
+	}
+	e.st.Info(info)
+	e.st.Evaluations++
+	e.ncases++
+	if err != nil {
+		return nil
+	}
+	return s
+}
+
+func fundsBal(cs []coin) bal4 {
+	b := zero4()
+	for _, c := range cs {
+		b[c.D-1] = new(big.Int).Add(b[c.D-1], c.A)
+	}
+	return b
+}
+
+// ---------------------------------------------------------------- Run
+
+func (e *env) createValidator(i int) error {
+	h := e.h
+	pk := ed25519.GenPrivKeyFromSecret([]byte(fmt.Sprintf("c12-val-%d", i))).PubKey()
+	pkAny, err := codectypes.NewAnyWithValue(pk)
+	if err != nil {
+		return err
+	}
+	ss := stakingkeeper.NewMsgServerImpl(h.App.StakingKeeper)
+	return apph.Tx(h.Ctx(), func(ctx sdk.Context) error {
+		_, e2 := ss.CreateValidator(ctx, &stakingtypes.MsgCreateValidator{
+			Description:       stakingtypes.Description{Moniker: fmt.Sprintf("owner-%d", i)},
+			Commission:        stakingtypes.CommissionRates{Rate: sdkmath.LegacyNewDecWithPrec(1, 1), MaxRate: sdkmath.LegacyNewDecWithPrec(2, 1), MaxChangeRate: sdkmath.LegacyNewDecWithPrec(1, 2)},
+			MinSelfDelegation: sdkmath.NewInt(1),
+			ValidatorAddress:  sdk.ValAddress(h.Accts[i].Addr).String(),
+			Pubkey:            pkAny,
+			Value:             sdk.NewCoin("uvrise", sdkmath.NewInt(1_000_000)),
+		})
+		return e2
+	})
+}
+
+const rule = "one step = one real x/accounts Execute (owner, stranger, forged msg.Sender) on a lockup account or its self-delegation proxy, a third-party bank send, or one block, compared with the model's step from the implementation's own pre-state; non-trivial when the owner acts while 0 < locked(now) < original and DelegatedLocking > 0, distinct by (variant, operation, result, locked decile, bit length of DL)"
+
+// Run generates about n step cases (plus the fixed corpus) and writes cases + stats into outDir.
+// newApp starts a fresh application instance for the environment (validators for the owners,
+// a few blocks so that they are bonded and earn).
+func (e *env) newApp() error {
+	if e.h != nil {
+		e.h.Close()
+	}
+	balc := sdk.NewCoins(sdk.NewCoin("urise", sdkmath.NewInt(40_000_000_000_000)), sdk.NewCoin("uvrise", sdkmath.NewInt(2_000_000_000)),
+		sdk.NewCoin("uusdc", sdkmath.NewInt(1_000_000_000_000)), sdk.NewCoin("uatom", sdkmath.NewInt(1_000_000_000_000)))
+	h := apph.New(apph.Options{NumAccounts: 7, Balances: balc})
+	e.h = h
+	e.ctxTime = time.Time{}
+	e.vals = nil
+	e.bondSendable = h.App.BankKeeper.IsSendEnabledDenom(h.Ctx(), "uvrise")
+	for _, i := range e.owners {
+		if err := e.createValidator(i); err != nil {
+			return fmt.Errorf("create validator %d: %w", i, err)
+		}
+		e.vals = append(e.vals, sdk.ValAddress(h.Accts[i].Addr).String())
+	}
+	e.vals = append(e.vals, sdk.ValAddress(h.Vals[0].Address).String())
+	sort.Strings(e.vals)
+	for i := 0; i < 3; i++ { // let the new validators enter the bonded set and start earning
+		if err := e.block(time.Second); err != nil {
+			return err
+		}
+	}
+	return nil
+}
+
+// richest: the account among the funder / recipients that holds most of the fee denom pays the
+// next Init or deposit (coins sent out by earlier histories are recycled)
+func (e *env) pickFunder() {
+	best, bi := big.NewInt(-1), e.funder
+	for _, i := range append([]int{3}, e.outs...) {
+		b := e.h.Bal(e.h.Ctx(), e.h.Accts[i].Addr, "urise").BigInt()
+		if b.Cmp(best) > 0 {
+			best, bi = b, i
+		}
+	}
+	e.funder = bi
+}
+
+// Run generates about n step cases (plus the fixed corpus) and writes cases + stats into outDir.
 func Run(seed int64, n int, outDir string) error {
-	return fmt.Errorf("c12: harness not built yet")
+	r := emit.NewRand(seed)
+	e := &env{r: r, owners: []int{0, 1, 2}, funder: 3, outs: []int{4, 5, 6},
+		distr: authtypes.NewModuleAddress("distribution"), scMod: authtypes.NewModuleAddress(sctypes.ModuleName)}
+	e.st = emit.NewStats("C12", seed, rule)
+	e.cf = &emit.CasesFile{Import: "Stake.C12Check", Runner: "run", Type: "c12_case"}
+	if err := e.newApp(); err != nil {
+		return err
+	}
+	defer func() { e.h.Close() }()
+	h := e.h
+	e.st.Extra["bond_denom_send_enabled"] = e.bondSendable
+
+	if err := e.corpus(); err != nil {
+		return err
+	}
+	scenarios := 0
+	day := 24 * time.Hour
+	for e.ncases < n {
+		// a fresh chain every few histories: block time stays far from the int64 nanosecond limit
+		// and the funding accounts are refilled
+		if scenarios > 0 && (scenarios%12 == 0 || e.now().Year() > 2120) {
+			if err := e.newApp(); err != nil {
+				return err
+			}
+			h = e.h
+		}
+		scenarios++
+		_ = h
+		sd := r.Bool()
+		var dur time.Duration
+		var off time.Duration
+		if r.Chance(7, 10) {
+			// long schedules, entered in the middle or about to start: unbondings (21 days) mature inside them
+			dur = []time.Duration{60 * day, 100 * day, 365 * day, 2 * 365 * day}[r.Intn(4)]
+			off = []time.Duration{-dur / 3, -dur / 2, -dur / 10, 0, 60 * time.Second, 3600 * time.Second}[r.Intn(6)]
+		} else {
+			dur = []time.Duration{30 * time.Second, 1000 * time.Second, 40 * day, 700 * time.Millisecond}[r.Intn(4)]
+			off = []time.Duration{-dur / 2, -dur / 4, 0, 60 * time.Second, -3 * dur}[r.Intn(5)]
+		}
+		start := e.now().Add(off + time.Duration(r.Int63n(1_000_000_000)))
+		end := start.Add(dur + time.Duration(r.Int63n(1_000_000_000)))
+		startZero := r.Chance(1, 8)
+		endZero := r.Chance(1, 40)
+		if r.Chance(1, 40) {
+			end = start.Add(-time.Second)
+		}
+		amt := e.r.LogUniform(12)
+		if amt.Cmp(big.NewInt(1000)) < 0 && r.Chance(2, 3) {
+			amt = new(big.Int).Add(amt, big.NewInt(1_000_000))
+		}
+		funds := []coin{{dFEE, amt}}
+		switch r.Intn(8) {
+		case 0:
+			funds = append(funds, coin{dUSDC, big.NewInt(int64(1 + r.Intn(100000)))})
+		case 1:
+			if r.Chance(1, 3) {
+				funds = []coin{{dUSDC, big.NewInt(int64(1 + r.Intn(100000)))}}
+			}
+		case 2:
+			if r.Chance(1, 3) {
+				funds = append(funds, coin{dBOND, big.NewInt(100)})
+			}
+		}
+		s := e.initCase(sd, start, end, startZero, endZero, funds, "gen")
+		if s == nil {
+			continue
+		}
+		steps := 20 + r.Intn(40)
+		if dur < day {
+			steps = 8 + r.Intn(12)
+		}
+		for i := 0; i < steps && e.ncases < n; i++ {
+			if err := s.randomStep(r); err != nil {
+				return err
+			}
+			if i > 8 && e.now().After(s.end) && r.Chance(1, 6) {
+				break
+			}
+			if i > 8 && e.now().After(s.end.Add(23*day)) && r.Chance(1, 3) {
+				break // the schedule is long over and every unbonding has completed
+			}
+		}
+	}
+	if _, err := e.cf.Write(outDir, "cases", 60); err != nil {
+		return err
+	}
+	return e.st.Write(outDir)
+}
+
+// corpus: fixed regression histories, run first.  They are the witnesses of the defects found
+// while building the check (see notes/C12.md): forged msg.Sender, root-owner lookup of a
+// lockup delegator, unbond entries recorded in the wrong denom, and the bank configuration
+// the proxy's custody relies on.
+func (e *env) corpus() error {
+	h := e.h
+	day := 24 * time.Hour
+	own := func(s *scen) (int, int) { return s.owner, s.owner }
+	stranger := e.outs[1]
+
+	// (a) non-voting variant, fully unlocked; a stranger forges msg.Sender = owner
+	a := e.initCase(false, h.Time.Add(-100*time.Second), h.Time.Add(-50*time.Second), false, false, []coin{{dFEE, big.NewInt(1000)}}, "corpus:a")
+	if a == nil {
+		return fmt.Errorf("corpus a: init failed")
+	}
+	a.doExec(opDesc{Kind: "Send", ES: stranger, MS: a.owner, To: "TOut", Coins: []coin{{dFEE, big.NewInt(7)}}}, "corpus:forged-sender-send")
+	a.doExec(opDesc{Kind: "Delegate", ES: stranger, MS: a.owner, Val: 1, D: dFEE, Amt: big.NewInt(5)}, "corpus:forged-sender-delegate")
+	es, ms := own(a)
+	a.doExec(opDesc{Kind: "Send", ES: es, MS: ms, To: "TOut", Coins: []coin{{dFEE, big.NewInt(7)}}}, "corpus:owner-send")
+
+	// (b) self-delegatable variant, locked for 100 days from now
+	b := e.initCase(true, h.Time, h.Time.Add(100*day), false, false, []coin{{dFEE, big.NewInt(1_000_000)}}, "corpus:b")
+	if b == nil {
+		return fmt.Errorf("corpus b: init failed")
+	}
+	es, ms = own(b)
+	b.doExec(opDesc{Kind: "SelfDelegate", ES: es, MS: ms, Amt: big.NewInt(400_000)}, "corpus:self-delegate")
+	b.doExec(opDesc{Kind: "Send", ES: es, MS: ms, To: "TOut", Coins: []coin{{dFEE, big.NewInt(1)}}}, "corpus:send-while-locked")
+	b.doExec(opDesc{Kind: "PUndelegate", ES: stranger, MS: b.owner, Amt: big.NewInt(100_000)}, "corpus:forged-sender-proxy")
+	b.doExec(opDesc{Kind: "PUndelegate", ES: es, MS: ms, Amt: big.NewInt(100_000)}, "corpus:proxy-undelegate")
+	if err := b.doBlock(h.Time.Add(30*day), "corpus:b"); err != nil {
+		return err
+	}
+	b.doExec(opDesc{Kind: "PSend", ES: es, MS: ms, To: "TOut", Coins: []coin{{dBOND, big.NewInt(1)}}}, "corpus:proxy-send-bond-denom")
+	b.doExec(opDesc{Kind: "PWithdrawReward", ES: es, MS: ms, Val: e.valID(sdk.ValAddress(h.Accts[b.owner].Addr).String())}, "corpus:proxy-withdraw-reward")
+	b.doExec(opDesc{Kind: "WithdrawUnbonded", ES: es, MS: ms, Amt: big.NewInt(60_000)}, "corpus:withdraw-unbonded")
+	w := b.observe(e.ctx())
+	b.doExec(opDesc{Kind: "Send", ES: es, MS: ms, To: "TOut", Coins: []coin{{dFEE, new(big.Int).Add(b.spendable(w), big.NewInt(1))}}}, "corpus:send-spendable+1")
+	b.doExec(opDesc{Kind: "Send", ES: es, MS: ms, To: "TOut", Coins: []coin{{dFEE, b.spendable(w)}}}, "corpus:send-spendable")
+
+	// (c) non-voting variant: delegate, undelegate, let the unbonding mature, then send
+	c := e.initCase(false, h.Time, h.Time.Add(100*day), false, false, []coin{{dFEE, big.NewInt(1_000_000)}}, "corpus:c")
+	if c == nil {
+		return fmt.Errorf("corpus c: init failed")
+	}
+	es, ms = own(c)
+	c.doExec(opDesc{Kind: "Delegate", ES: es, MS: ms, Val: 1, D: dFEE, Amt: big.NewInt(300_000)}, "corpus:delegate")
+	c.doExec(opDesc{Kind: "Undelegate", ES: es, MS: ms, Val: 1, D: dFEE, Amt: big.NewInt(100_000)}, "corpus:undelegate")
+	if err := c.doBlock(e.safeTime(h.Time.Add(10*day)), "corpus:c"); err != nil {
+		return err
+	}
+	c.doExec(opDesc{Kind: "Send", ES: es, MS: ms, To: "TOut", Coins: []coin{{dFEE, big.NewInt(1)}}}, "corpus:send-before-maturity")
+	if err := c.doBlock(e.safeTime(h.Time.Add(12*day)), "corpus:c"); err != nil {
+		return err
+	}
+	c.doExec(opDesc{Kind: "Send", ES: es, MS: ms, To: "TOut", Coins: []coin{{dFEE, big.NewInt(1)}}}, "corpus:send-after-maturity")
+	c.doExec(opDesc{Kind: "Delegate", ES: es, MS: ms, Val: 1, D: dFEE, Amt: big.NewInt(10)}, "corpus:delegate-after-maturity")
+
+	// (d) non-voting variant: two unbond entries on one validator, the first matured, the second not.
+	// The refresh processes the first entry, meets the second, returns early WITHOUT storing the
+	// shortened list: the first entry is tracked again by every later refresh (DL/DF are
+	// over-decremented -- the conservative direction; same code as the upstream SDK lockup).
+	d := e.initCase(false, h.Time, h.Time.Add(300*day), false, false, []coin{{dFEE, big.NewInt(1_000_000)}}, "corpus:d")
+	if d == nil {
+		return fmt.Errorf("corpus d: init failed")
+	}
+	es, ms = own(d)
+	d.doExec(opDesc{Kind: "Delegate", ES: es, MS: ms, Val: 2, D: dFEE, Amt: big.NewInt(600_000)}, "corpus:d-delegate")
+	d.doExec(opDesc{Kind: "Undelegate", ES: es, MS: ms, Val: 2, D: dFEE, Amt: big.NewInt(100_000)}, "corpus:d-undelegate-1")
+	if err := d.doBlock(e.safeTime(h.Time.Add(5*day)), "corpus:d"); err != nil {
+		return err
+	}
+	d.doExec(opDesc{Kind: "Undelegate", ES: es, MS: ms, Val: 2, D: dFEE, Amt: big.NewInt(50_000)}, "corpus:d-undelegate-2")
+	if err := d.doBlock(e.safeTime(h.Time.Add(17*day)), "corpus:d"); err != nil {
+		return err
+	}
+	d.doExec(opDesc{Kind: "Send", ES: es, MS: ms, To: "TOut", Coins: []coin{{dFEE, big.NewInt(1)}}}, "corpus:d-send-refresh-1")
+	d.doExec(opDesc{Kind: "Send", ES: es, MS: ms, To: "TOut", Coins: []coin{{dFEE, big.NewInt(1)}}}, "corpus:d-send-refresh-2")
+	d.doExec(opDesc{Kind: "Send", ES: es, MS: ms, To: "TOut", Coins: []coin{{dFEE, big.NewInt(1)}}}, "corpus:d-send-refresh-3")
+	if err := d.doBlock(e.safeTime(h.Time.Add(6*day)), "corpus:d"); err != nil {
+		return err
+	}
+	d.doExec(opDesc{Kind: "Send", ES: es, MS: ms, To: "TOut", Coins: []coin{{dFEE, big.NewInt(1)}}}, "corpus:d-send-after-both")
+	return nil
 }
